@@ -598,7 +598,37 @@ class DrawCap(BaseException):
 
 
 @contextlib.contextmanager
+def evaluation_cap(limit=300000):
+    """General backstop against runs that never end (e.g. a rejection loop against a NaN threshold):
+    a bound on the number of points handed to the batch likelihood interface, far above the nominal
+    cost of the tiny configurations (a few thousand).  Raised as DrawCap (a BaseException)."""
+    from nessai.model import Model
+
+    o = Model.batch_evaluate_log_likelihood
+    state = {"n": 0}
+
+    def bel(self, x, *a, **k):
+        state["n"] += int(np.size(x))
+        if state["n"] > limit:
+            raise DrawCap(f"run does not terminate: {state['n']} likelihood evaluations (nominal: a few thousand)")
+        return o(self, x, *a, **k)
+
+    Model.batch_evaluate_log_likelihood = bel
+    try:
+        yield
+    finally:
+        Model.batch_evaluate_log_likelihood = o
+
+
+@contextlib.contextmanager
 def ins_draw_cap(limit=2000):
+    with evaluation_cap():
+        with _ins_draw_cap(limit):
+            yield
+
+
+@contextlib.contextmanager
+def _ins_draw_cap(limit=2000):
     from nessai.proposal.importance import ImportanceFlowProposal as IFP
 
     o = IFP.draw
@@ -628,6 +658,13 @@ def ins_draw_cap(limit=2000):
 
 @contextlib.contextmanager
 def std_draw_cap(limit=20000, max_populations=400):
+    with evaluation_cap():
+        with _std_draw_cap(limit, max_populations):
+            yield
+
+
+@contextlib.contextmanager
+def _std_draw_cap(limit=20000, max_populations=400):
     """Bound on the latent draws of one FlowProposal.populate call (backstop against hangs)."""
     from nessai.proposal.flowproposal import FlowProposal as FP
 
